@@ -140,8 +140,46 @@ def compare_one(model, impl):
                     'model': ' '.join(mt[max(0, j - 6):j + 4]) if j < len(mt) else '<end>',
                     'impl': ' '.join(it[max(0, j - 6):j + 4]) if j < len(it) else '<end>'}
         kind = 'T2' if (ml.startswith('T\t') or il.startswith('T\t')) else 'T1'
-        return {'status': 'diff', 'kind': kind, 'region': 'FE', 'line': k, 'model': ml[:300], 'impl': il[:300]}
+        return {'status': 'diff', 'kind': kind, 'region': 'FE', 'line': k, 'model': ml[:300], 'impl': il[:300],
+                'fe_parts': sorted(fe_parts(m2, impl))}
     return {'status': 'same'}
+
+def _edge_fields(l):
+    # edge S -> T ev=.. p=.. g=.. u=.. b=.. a=.. ar=..
+    t = l.split()
+    d = {'src': t[1] if len(t) > 1 else '', 'tgt': t[3] if len(t) > 3 else ''}
+    for x in t[4:]:
+        if '=' in x:
+            k, v = x.split('=', 1)
+            d[k] = v
+    return d
+
+def fe_parts(model, impl):
+    """which parts of the front-end dump differ (names of line kinds; for edges, of fields)"""
+    parts = set()
+    mm = [l for l in model if not l.startswith('T\t')]
+    ii = [l for l in impl if not l.startswith('T\t')]
+    def by_kind(ls):
+        d = {}
+        for l in ls:
+            k = l.strip().split(' ', 1)[0]
+            d.setdefault(k, []).append(l)
+        return d
+    a, b = by_kind(mm), by_kind(ii)
+    for k in set(a) | set(b):
+        if a.get(k) != b.get(k):
+            if k == 'edge':
+                ea, eb = a.get(k, []), b.get(k, [])
+                if len(ea) != len(eb):
+                    parts.add('edge.set')
+                for x, y in zip(ea, eb):
+                    fx, fy = _edge_fields(x), _edge_fields(y)
+                    for f in set(fx) | set(fy):
+                        if fx.get(f) != fy.get(f):
+                            parts.add('edge.' + f)
+            else:
+                parts.add(k)
+    return parts
 
 def regions_of(model):
     out = {}
